@@ -29,7 +29,8 @@ EXPLANATION = (
     '(numpy on floats by IEEE semantics); (C08.10) + - * / and & on every ordered pair of scalar operand kinds against the '
     'reference ("3"+1=4, TRUE+1=2, blank+1=1, #VALUE!, #DIV/0!, text forms joined). (C08.10) + - * / ^ and & on every '
     "ordered pair of 14 operand spellings (numpy's integer power modelled with 64-bit semantics); texts that spell a "
-    'boolean are keyed apart (known finding F42).')
+    'boolean are keyed apart (known finding F42).'
+    ' (C08.7) also evaluators whose namespaces bind one name to functions of other signatures; (C08.11) 17 spellings of numeric text in seven numeric positions, text forms of 13 numbers in eight text positions; (C08.12) 45 keyword call forms against the same call written by position.')
 NOT_DECIDED = 'equality of results across spellings at the value level'
 TRUSTED = ['typing.NewType/Union semantics of the annotation aliases', 'functools.wraps makes inspect.signature see the wrapped signature']
 
